@@ -68,6 +68,8 @@ func dbgCheck(which string, plan kPlan, run kRun) (msg string) {
 		c20Check(c, f, plan, run)
 	case "c21":
 		c21Check(c, f, plan, run)
+	case "c28":
+		c28Check(c, f, plan, run)
 	default:
 		c19Check(c, f, plan, run)
 	}
